@@ -195,6 +195,11 @@ c16!(c16_anm07_read_size8, 12, read_instr_never_panics::<8>(&InstrFormat07, 2, 2
 //@ C16 c16_anm07_read_size12 quick default ANM v2+: read_instr on arbitrary header bytes whose size field is 12 (4 argument bytes) returns Ok or Err and never panics (no underflow, no failed assert, no out-of-range read)
 c16!(c16_anm07_read_size12, 16, read_instr_never_panics::<12>(&InstrFormat07, 2, 2, 12));
 
+//@ C16 c16_anm06_read_size3 quick default ANM v0: read_instr on arbitrary header bytes whose size field is 3 (3 argument bytes: not a multiple of 4) returns Ok or Err and never panics (no underflow, no failed assert, no out-of-range read)
+c16!(c16_anm06_read_size3, 12, read_instr_never_panics::<7>(&InstrFormat06, 3, 1, 3));
+//@ C16 c16_anm07_read_size9 quick default ANM v2+: read_instr on arbitrary header bytes whose size field is 9 (one more than the header) returns Ok or Err and never panics (no underflow, no failed assert, no out-of-range read)
+c16!(c16_anm07_read_size9, 13, read_instr_never_panics::<9>(&InstrFormat07, 2, 2, 9));
+
 #[cfg(kani)]
 #[path = "/verif/.cache/playback/anm_read_write.rs"]
 mod playback;
